@@ -406,6 +406,9 @@ func (vc *VC) heapGet(st *State, comp, sort string) string {
 	name := fmt.Sprintf("%s@%d", comp, st.epoch)
 	if _, ok := vc.decl[name]; !ok {
 		vc.declareNamed(name, sort)
+		if strings.HasPrefix(comp, "N_") && st.epoch == 0 {
+			vc.emit("(assert (= " + name + " 0))") // ghost call counters start at zero
+		}
 		top := vc.epochTop[st.epoch]
 		if top == "" {
 			top = vc.allocBase
